@@ -3,7 +3,7 @@ import math
 import numpy as np
 import impl
 from gen import grid, data, special, unc, unc_relative
-from .common import arr, tolist, history_differs, transform_primers
+from .common import arr, tolist, history_differs, transform_primers, exceeds
 
 LEAN = "PystogVerif.Props.C02"
 ENTRIES = ["Transformer.fourier_transform", "Transformer.G_to_F", "Transformer.F_to_G"]
@@ -76,12 +76,12 @@ def evaluate(case):
     if v[0] != 0.0:
         fails.append(f"fourier_transform: value at x'=0 is {v[0]!r}, expected exactly 0")
     _, vm, _ = tr.fourier_transform(x, y, -xo)
-    if np.abs(np.asarray(vm) + v).max() > 1e-12 * sc:
+    if exceeds(np.abs(np.asarray(vm) + v).max(), 1e-12 * sc):
         fails.append("fourier_transform: not odd in x'")
     _, vz, _ = tr.fourier_transform(x, z, xo)
     _, vl, _ = tr.fourier_transform(x, a * y + b * z, xo)
     scl = abs(a) * sc + abs(b) * (float(np.sum(np.abs(w) * np.abs(z))) + 1e-300)
-    if np.abs(np.asarray(vl) - (a * v + b * np.asarray(vz))).max() > 1e-9 * scl:
+    if exceeds(np.abs(np.asarray(vl) - (a * v + b * np.asarray(vz))).max(), 1e-9 * scl):
         fails.append("fourier_transform: not linear in the data")
     # the value is a function of the arguments only: a Transformer that has served look-alike calls (same grid with every option
     # on, a grid with the same length and end points, other data) returns the same bits as a fresh one
@@ -93,14 +93,14 @@ def evaluate(case):
     if not np.array_equal(np.asarray(g2f), v):
         fails.append("G_to_F is not the bare core transform")
     _, f2g, _ = tr.F_to_G(x, y, xo)
-    if np.abs(np.asarray(f2g) - v * 2 / np.pi).max() > 1e-12 * sc:
+    if exceeds(np.abs(np.asarray(f2g) - v * 2 / np.pi).max(), 1e-12 * sc):
         fails.append("F_to_G is not (2/pi) * core transform")
     # "every output grid, every data vector": integer-typed copies of integer-valued grids/data give the same values
     xi = np.arange(-2, max(3, int(min(x[-1], 12))) + 1)
     _, vf, _ = tr.fourier_transform(x, y, xi.astype(float))
     try:
         _, vi, _ = tr.fourier_transform(x, y, xi)
-        if np.asarray(vi).shape != np.asarray(vf).shape or np.abs(np.asarray(vi, dtype=float) - np.asarray(vf)).max() > 1e-12 * sc:
+        if np.asarray(vi).shape != np.asarray(vf).shape or exceeds(np.abs(np.asarray(vi, dtype=float) - np.asarray(vf)).max(), 1e-12 * sc):
             fails.append("fourier_transform: an integer-typed output grid gives different (truncated) values than the same grid as floats")
     except Exception as ex:  # noqa: BLE001
         fails.append(f"fourier_transform: an integer-typed output grid raises {type(ex).__name__}")
@@ -116,7 +116,7 @@ def evaluate(case):
             g_no_lowq = gF - yds / (4 * np.pi * ft["rho"] * rF)
             _, gP, _ = tr.S_to_g(q, sq, rF, rho=ft["rho"])
             scg = max(1.0, float(np.abs(g_no_lowq - 1).max()))
-            if np.abs(np.asarray(gP) - g_no_lowq).max() > 1e-8 * scg:
+            if exceeds(np.abs(np.asarray(gP) - g_no_lowq).max(), 1e-8 * scg):
                 fails.append(f"S_to_g differs from the compiled Fortran stog_bit (analytic low-Q term removed) by {np.abs(np.asarray(gP) - g_no_lowq).max():.3g}")
     return fails
 
